@@ -164,7 +164,8 @@ def run_one(profile, mode, base, data, persist):
             if persist and r.kind in ('sub', 'unsub'):
                 continue
             v.append(V('hanging', 'request-left-hanging/%s' % r.kind, '%s request pending after the connection ended (input %s)' % (r.kind, data.hex())))
-    if state_name(c) != 'IdleState':
+    from ..monitor import is_idle
+    if not is_idle(c):
         v.append(V('hanging', 'not-idle-after-loss/%s' % state_name(c), data.hex()))
     outcome = ('aborted' if aborted else 'open', tuple(sorted(set(o[0] + ':' + str(o[1]) for o in w.obs[-12:] if o[0] in ('cb', 'fire')))))
     return v, outcome
